@@ -61,16 +61,26 @@ void FeatureChecker::visitEdge(edge_t& edge)
 
 void FeatureChecker::visitGuard(expression_t& guard)
 {
+    if (guard.empty())
+        return;
     switch (guard.get_kind()) {
     case Constants::LT:
     case Constants::LE:
     case Constants::EQ:
+    case Constants::NEQ:
+    case Constants::GE:
+    case Constants::GT:
+        if (guard.get(0).get_kind() == Constants::RATE || guard.get(1).get_kind() == Constants::RATE)
+            break;  // a clock rate, not a comparison: see isRateDisallowedInSymbolic
         for (size_t i = 0; i < guard.get_size(); ++i) {
             if (guard.get(i).uses_fp())
                 supported_methods.symbolic = false;
         }
     default: break;
     }
+    // the comparison may be any conjunct (or any other sub-expression) of the constraint
+    for (size_t i = 0; i < guard.get_size(); ++i)
+        visitGuard(guard.get(i));
 }
 
 void FeatureChecker::visitAssignment(expression_t& ass)
@@ -90,9 +100,10 @@ void FeatureChecker::visitAssignment(expression_t& ass)
 
 void FeatureChecker::visitLocation(location_t& location)
 {
-    const auto& invariant = location.invariant;
+    auto& invariant = location.invariant;
     if (invariant.empty())
         return;
+    visitGuard(invariant);
     if (isRateDisallowedInSymbolic(invariant))
         supported_methods.symbolic = false;
 }
